@@ -18,6 +18,7 @@ Int = ("int",)
 Bool = ("bool",)
 Bytes = ("bytes",)
 Str = ("str",)
+Str1 = ("str1",)        # str whose code points are all <= 0xFF (came from bytes.decode("latin-1"))
 NoneT = ("none",)
 
 
@@ -90,7 +91,8 @@ class FuncContract:
 
 
 class LoopSpec:
-    def __init__(self, invariants=(), variant=None, modifies=(), unroll=None, kind=None, index=None):
+    def __init__(self, invariants=(), variant=None, modifies=(), unroll=None, kind=None, index=None, types=None):
+        self.types = dict(types or {})        # local name -> type descriptor used when the loop havocs it
         self.invariants = list(invariants)    # [(name, text)] over locals + self
         self.variant = variant                # text -> int or tuple of ints (lexicographic)
         self.modifies = list(modifies)        # extra heap locations "self.f" havocked
@@ -110,6 +112,7 @@ class Registry:
         self.regex_group_lemmas = {}   # (pattern name, group) -> [callable(eng, argV, groupV)]
         self.regex_optional_groups = set()
         self.inline_all = False
+        self.elem_preds = {}      # name -> callable(eng, V) -> z3 Bool   (facts holding for every element of a list)
         self._exprs = {}
 
     def add_class(self, spec):
@@ -131,6 +134,11 @@ class Registry:
             self._exprs[text] = ast.parse(text.strip(), mode="eval").body
         return self._exprs[text]
 
+    def install_std_specs(self):
+        from .builtins_model import spec_all_elems, spec_dict_empty
+        self.spec_funcs["all_elems"] = spec_all_elems
+        self.spec_funcs["dict_empty"] = spec_dict_empty
+
     def spec(self, name):
         def deco(fn):
             self.spec_funcs[name] = fn
@@ -151,8 +159,11 @@ def resolve_location(eng, text, env):
     return v, parts[-1]
 
 
-def havoc_like(eng, val, base, ty=None):
+def havoc_like(eng, val, base, ty=None, elem_ty=None):
     """fresh value of the same shape as val"""
+    if ty is not None and ty[0] == "list" and isinstance(val, VList):
+        elem_ty = ty[1]
+        ty = None
     if ty is not None:
         return eng.fresh_of_type(ty, base)
     if isinstance(val, VInt):
@@ -173,14 +184,24 @@ def havoc_like(eng, val, base, ty=None):
         m = eng.state.lists[val.lid]
         ln = eng.fresh_int(base + "_len")
         eng.assume(ln.t >= 0)
-        nm = ListModel(None, ln.t, m.make_elem, m.elem_facts, m.tag)
+        mk = m.make_elem
+        if mk is None and elem_ty is not None:
+            mk = lambda i, _t=elem_ty, _b=base: eng.fresh_of_type(_t, _b + "_elem")
+        if mk is None and m.items:
+            mk = lambda i, _s=m.items[0], _b=base: havoc_like(eng, _s, _b + "_elem")
+        nm = ListModel(None, ln.t, mk, m.elem_facts, m.tag)
         eng.state.lists[val.lid] = nm        # same identity, new content
         return val
     if isinstance(val, VObj):
         return val
     if isinstance(val, pyvc.VDict):
         m = eng.state.dicts[val.did]
-        eng.state.dicts[val.did] = pyvc.DictModel({}, True, m.make_val, m.tag)
+        mk = m.make_val
+        if mk is None:
+            # value shape taken from an existing entry when the dict had no declared value type
+            sample = next((v for _, v in m.entries.values()), None)
+            mk = (lambda key, _s=sample: havoc_like(eng, _s, "dictval")) if sample is not None else None
+        eng.state.dicts[val.did] = pyvc.DictModel({}, True, mk, m.tag)
         return val
     raise OutOfSubset("havoc of %r" % (val,))
 
@@ -224,7 +245,7 @@ def apply_contract(eng, con, fn, args, kwargs, node, fr, caller_label=None):
         if eng.branch(c):
             for nm, text in con.ensures_exc:
                 eng.assume(eng.truth(eng.eval_spec(text, dict(env, raised=VBool(True)), con.qual.split(".")[0], old=old)))
-            raise RaiseSig(VExc(exc))
+            raise RaiseSig(VExc(exc, [eng.fresh_str("excmsg", False)]))
     declared_conditional = {e for e, _ in con.raises_when}
     for exc in con.raises:
         if exc in declared_conditional:
@@ -232,11 +253,15 @@ def apply_contract(eng, con, fn, args, kwargs, node, fr, caller_label=None):
         if eng.branch(eng.fresh_bool("raises_" + exc.split(".")[-1]).t):
             for nm, text in con.ensures_exc:
                 eng.assume(eng.truth(eng.eval_spec(text, dict(env, raised=VBool(True)), con.qual.split(".")[0], old=old)))
-            raise RaiseSig(VExc(exc))
+            raise RaiseSig(VExc(exc, [eng.fresh_str("excmsg", False)]))
     result = eng.fresh_of_type(con.returns, "ret_" + short) if con.returns is not None else NONE
     env2 = dict(env, result=result, raised=VBool(False))
-    for nm, text in con.ensures:
-        eng.assume(eng.truth(eng.eval_spec(text, env2, con.qual.split(".")[0], old=old)))
+    eng.assuming = True
+    try:
+        for nm, text in con.ensures:
+            eng.assume(eng.truth(eng.eval_spec(text, env2, con.qual.split(".")[0], old=old)))
+    finally:
+        eng.assuming = False
     return result
 
 
@@ -283,8 +308,12 @@ def verify_function(eng, con, label=None, setup=None, extra_checks=None):
             setup(eng, env)
         if self_obj is not None and con.assume_invariant and not con.fresh_self:
             assume_class_invariants(eng, self_obj)
-        for nm, text in con.requires:
-            eng.assume(eng.truth(eng.eval_spec(text, env, modname)))
+        eng.assuming = True
+        try:
+            for nm, text in con.requires:
+                eng.assume(eng.truth(eng.eval_spec(text, env, modname)))
+        finally:
+            eng.assuming = False
         old = eng.state.snapshot()
         old_env = dict(env)
         fr = Frame(modname, con.qual, dict(env), self_obj)
@@ -328,9 +357,13 @@ def all_specs(eng, cls):
 
 
 def assume_class_invariants(eng, obj):
-    for spec in all_specs(eng, obj.cls):
-        for nm, text in spec.invariants:
-            eng.assume(eng.truth(eng.eval_spec(text, {"self": obj}, spec.module)))
+    eng.assuming = True
+    try:
+        for spec in all_specs(eng, obj.cls):
+            for nm, text in spec.invariants:
+                eng.assume(eng.truth(eng.eval_spec(text, {"self": obj}, spec.module)))
+    finally:
+        eng.assuming = False
 
 
 def check_class_invariants(eng, obj, label):
